@@ -312,6 +312,13 @@ class SymContext(object):
         """float == (used by the EUF-mode exactness clauses)"""
         return self._sym.eq(a, b)
 
+    def hash(self, obj):
+        return self.ip.call(self.ip.builtins['hash'], [obj], {})
+
+    def set_global(self, qual, value):
+        mod, _, name = qual.partition('.')
+        self.ip.module(mod).vars[name] = value
+
     def cos_sin_deg(self, degs):
         """(cos, sin) of an angle given in degrees (same uninterpreted atoms the code reaches
         through radians())"""
@@ -531,6 +538,14 @@ class ConcContext(object):
 
     def exact_eq(self, a, b):
         return a == b
+
+    def hash(self, obj):
+        return hash(obj)
+
+    def set_global(self, qual, value):
+        import importlib
+        mod, _, name = qual.partition('.')
+        setattr(importlib.import_module('svgpathtools.' + mod), name, value)
 
     def cos_sin_deg(self, degs):
         import math
